@@ -48,6 +48,14 @@ func nasDispatchEval(fn *ssa.Function) ([]core.AOutcome, *core.Exec, error) {
 		}
 		return core.AVal{}, false
 	}
+	ex.Observe = func(ev *core.AEvent) {
+		// a call through a function value the path did not pin down: a dispatch form the rule cannot read
+		if ev.Fn == nil && ev.Site != nil && !ev.Site.Common().IsInvoke() && ev.Site.Common().StaticCallee() == nil {
+			if _, isB := ev.Site.Common().Value.(*ssa.Builtin); !isB {
+				nasDispatchDynamic[ex] = true
+			}
+		}
+	}
 	args := core.DefaultArgs(fn)
 	for i := range args {
 		args[i] = core.NonNilArg(args[i])
@@ -55,6 +63,8 @@ func nasDispatchEval(fn *ssa.Function) ([]core.AOutcome, *core.Exec, error) {
 	outs, err := ex.Run(fn, args, nil)
 	return outs, ex, err
 }
+
+var nasDispatchDynamic = map[*core.Exec]bool{}
 
 // factOn returns the single value the path has established for a source whose name contains part.
 func factOn(o core.AOutcome, parts ...string) (uint64, bool) {
@@ -96,6 +106,7 @@ func r8dispatchX(c *core.Ctx, m *nasModel) {
 		c.Undecided("only %d MsgType constants found in package nas", len(mt))
 	}
 	covered := map[string]bool{}
+	anyUnread := false
 	fams := []struct{ fam, dec, enc, field string }{{"Gmm", "GmmMessageDecode", "GmmMessageEncode", "GmmMessage"}, {"Gsm", "GsmMessageDecode", "GsmMessageEncode", "GsmMessage"}}
 	for _, f := range fams {
 		for _, dir := range []string{"decode", "encode"} {
@@ -111,6 +122,7 @@ func r8dispatchX(c *core.Ctx, m *nasModel) {
 				continue
 			}
 			okDef, nDef := true, 0
+			unread := nasDispatchDynamic[ex]
 			seen := map[string]bool{}
 			for _, o := range outs {
 				if o.Panicked {
@@ -125,6 +137,12 @@ func r8dispatchX(c *core.Ctx, m *nasModel) {
 				// the octet the path was selected by: the one source pinned to a single value
 				v, has := factOn(o)
 				k, known := byVal[int64(v)]
+				if !has && len(evs) > 0 {
+					// a codec is called on a path that no single message type selects (a dispatch through a
+					// table the evaluator did not follow): the form is not one the rule reads
+					unread = true
+					continue
+				}
 				if !has || !known {
 					// no (known) message type selected: must report an error and touch no message
 					nDef++
@@ -183,6 +201,11 @@ func r8dispatchX(c *core.Ctx, m *nasModel) {
 					c.Check(ok, R, key+":encode", pos, want, "encode case must be [%s], is %v", want, got)
 				}
 			}
+			if unread {
+				c.SoftUndecided("R8.dispatch: nas.%s selects its codec in a form the rule does not follow (a call is made on a path no single message type selects)", name)
+				anyUnread = true
+				continue
+			}
 			c.Check(okDef && nDef > 0, R, "nas."+name+":default", fn.Pos(), "default: return error", "unknown message types must be reported as an error by the default case")
 		}
 	}
@@ -193,6 +216,9 @@ func r8dispatchX(c *core.Ctx, m *nasModel) {
 		}
 	}
 	sort.Strings(missing)
+	if anyUnread {
+		missing = nil
+	}
 	c.Check(len(missing) == 0, R, "nas:all-message-types-dispatched", token.NoPos, fmt.Sprintf("%d message types", len(mt)), "message types without a dispatch case: %v", missing)
 	// EPD dispatch
 	epdM, epdS := mustConst(c, pNasM, "Epd5GSMobilityManagementMessage"), mustConst(c, pNasM, "Epd5GSSessionManagementMessage")
